@@ -93,7 +93,8 @@ CLAIMS["C17"] = dict(
     cat="other",
     text="BOUNDED stand-in only, not a proof: for every multigraph with at most 3 nodes and 3 edges (self-loops, parallel edges, integer or unit weights) the real "
          "floyd_warshall template equals an independent Bellman-Ford oracle, with zero diagonal, symmetry and the exact sentinel for unreachable pairs. dijkstra/johnsons "
-         "(pairing heap) could not be brought within CBMC's reach and are not covered; the layout distance matrix is not covered.",
+         "(pairing heap) could not be brought within CBMC's reach and are not covered. Of the layout distance matrix only the two loop bodies of computePathLengths are under "
+         "contract (unbounded for one index / pair: non-positive lengths become 1; reachable pairs scaled by idealLength and marked 2, unreachable keep the sentinel and 0).",
     note=BASE_TB + "Template instantiated at an integer type (machine arithmetic treated as mathematical); bound stated per job; evidence level 'other' with the bounded jobs "
          "listed and obligations/discharged left at zero.",
     tech="CBMC bounded model checking of the verbatim template slice (concrete loop bounds, unwinding complete) against a Bellman-Ford oracle; native exhaustive replay",
